@@ -168,6 +168,16 @@ func prepInfo(name string, p []string) (int, map[string]interface{}) {
 	case "proclist":
 		return agent.COMMAND_PROC_LIST, map[string]interface{}{"FromProcessManager": arg(0)}
 	}
+	switch name {
+	case "kerb.luid":
+		return agent.COMMAND_KERBEROS, map[string]interface{}{"Command": "luid"}
+	case "kerb.klist":
+		return agent.COMMAND_KERBEROS, map[string]interface{}{"Command": "klist", "Argument1": "/luid", "Argument2": arg(0)}
+	case "kerb.purge":
+		return agent.COMMAND_KERBEROS, map[string]interface{}{"Command": "purge", "Argument": arg(0)}
+	case "kerb.ptt":
+		return agent.COMMAND_KERBEROS, map[string]interface{}{"Command": "ptt", "Ticket": b64(arg(0)), "Luid": arg(1)}
+	}
 	if key, ok := map[string]string{"config.verbose": "implant.verbose", "config.coffee.veh": "implant.coffee.veh", "config.coffee.threaded": "implant.coffee.threaded",
 		"config.sleep-technique": "implant.sleep-obf.technique", "config.memory.alloc": "memory.alloc", "config.memory.execute": "memory.execute",
 		"config.inject.technique": "inject.technique", "config.spawn64": "inject.spawn64", "config.spawn32": "inject.spawn32",
@@ -216,6 +226,9 @@ func runC02(c *Ctx) {
 	hexids := func() string {
 		return gen.Pick(r, []string{"0", "1", "7fffffff", "deadbeef"[:1+r.Intn(7)], fmt.Sprintf("%x", r.Intn(1<<30))})
 	}
+	luids := func() string {
+		return gen.Pick(r, []string{"3e7", "0x3e7", "10", "1234", "996", "012", "0b1", "0", "7fffffff", "deadbeef", "0xA", fmt.Sprintf("%x", r.Intn(1<<30))})
+	}
 	prepCases := []struct {
 		name   string
 		params func() []string
@@ -244,6 +257,9 @@ func runC02(c *Ctx) {
 		{"config.memory.execute", func() []string { return []string{ints()} }}, {"config.inject.technique", func() []string { return []string{ints()} }},
 		{"config.spawn64", func() []string { return []string{texts()} }}, {"config.spawn32", func() []string { return []string{texts()} }},
 		{"config.killdate", func() []string { return []string{"0"} }},
+		{"kerb.luid", func() []string { return nil }}, {"kerb.klist", func() []string { return []string{luids()} }},
+		{"kerb.purge", func() []string { return []string{luids()} }},
+		{"kerb.ptt", func() []string { return []string{gen.Pick(r, []string{"ticket-bytes", "\x76\x82\x01", "x"}), luids()} }},
 		{"config.workinghours", func() []string {
 			if r.Chance(1, 8) {
 				return []string{"0"}
